@@ -418,13 +418,24 @@ def clear (x : Index) : Index × Out :=
   let (c, _) := x.cache.clear
   ({ cache := c }, .none)
 
-/-- `items()`: iteration order, each value looked up -/
+/-- the walk of the item view (`ItemsView.__iter__`: `for key in mapping: yield (key, mapping[key])`):
+the rows in iteration order, every key looked up again.  A look-up that misses raises KeyError
+(`Cache.__getitem__`), which ends the walk: the result is the state after that look-up, the items
+produced so far, and `true` -/
+def itemsWalk (E : Externals) (now : Int) : List Row → Cache → List Out → Cache × List Out × Bool
+  | [], c, acc => (c, acc, false)
+  | r :: rows, c, acc =>
+    let k := DC.get E c.cfg.disk r.key r.raw
+    let (c, o) := c.get E now k false false false
+    match o with
+    | .default => (c, acc, true)
+    | o => itemsWalk E now rows c (acc ++ [.tup [.val k, o]])
+
+/-- `list(index.items())`: iteration order, each value looked up; KeyError at the first key whose
+look-up misses (nothing after it is produced: the exception propagates out of the iteration) -/
 def items (x : Index) (E : Externals) (now : Int) : Index × Out :=
-  let (c, outs) := x.cache.rows.foldl (fun (acc : Cache × List Out) r =>
-    let k := DC.get E acc.1.cfg.disk r.key r.raw
-    let (c, o) := acc.1.get E now k false false false
-    (c, match o with | .default => acc.2 | o => acc.2 ++ [.tup [.val k, o]])) (x.cache, [])
-  ({ cache := c }, .list outs)
+  let (c, outs, miss) := itemsWalk E now x.cache.rows x.cache []
+  ({ cache := c }, if miss then .exc "KeyError" else .list outs)
 
 
 /-- `update(pairs)` (MutableMapping): one assignment per pair, in order, stopping at the first one
@@ -437,29 +448,34 @@ def update (x : Index) (E : Externals) (now : Int) (kvs : List (PyVal × PyVal))
     | (x1, .exc e) => (x1, .exc e)
     | (x1, _) => update x1 E now kvs
 
-/-- `values()`: iteration order, each value looked up -/
+/-- `list(index.values())`: iteration order, each value looked up; KeyError at the first key whose
+look-up misses -/
 def values (x : Index) (E : Externals) (now : Int) : Index × Out :=
   let (x1, o) := x.items E now
-  (x1, .list ((Fanout.outList o).filterMap (fun t => match t with | .tup [_, v] => some v | _ => none)))
+  match o with
+  | .exc e => (x1, .exc e)
+  | o => (x1, .list ((Fanout.outList o).filterMap (fun t => match t with | .tup [_, v] => some v | _ => none)))
 
 def pairsOf (outs : List Out) : List (PyVal × PyVal) :=
   outs.filterMap (fun t => match t with | .tup [.val k, .val v] => some (k, v) | _ => none)
 
-/-- `index == other` (persistent.py:1098-1129): lengths first; against an Index or OrderedDict
-pairwise in order, against any other mapping key by key -/
+/-- `index == other` (persistent.py:1098-1136): lengths first; against an Index or OrderedDict
+pairwise in order, against any other mapping key by key.  Both comparisons walk the items lazily
+(`any` / `all` over a generator that evaluates `self[key]`): the first unequal pair decides
+(`False`); a look-up that misses before any unequal pair raises KeyError -/
 def eqTo (x : Index) (E : Externals) (now : Int) (ordered : Bool) (other : List (PyVal × PyVal)) : Index × Out :=
   if x.cache.count != (other.length : Int) then (x, .bool false)
   else
-    let (x1, o) := x.items E now
-    let mine := pairsOf (Fanout.outList o)
-    if ordered then
-      (x1, .bool (!(mine.zip other).any (fun p => !pyEq p.1.1 p.2.1 || !pyEq p.1.2 p.2.2)))
-    else
-      (x1, .bool (mine.all (fun kv => match other.find? (fun p => pyEq kv.1 p.1) with
+    let (c, outs, miss) := itemsWalk E now x.cache.rows x.cache []
+    let mine := pairsOf outs
+    let b :=
+      if ordered then !(mine.zip other).any (fun p => !pyEq p.1.1 p.2.1 || !pyEq p.1.2 p.2.2)
+      else mine.all (fun kv => match other.find? (fun p => pyEq kv.1 p.1) with
         | some p => pyEq kv.2 p.2
-        | none => false)))
+        | none => false)
+    ({ cache := c }, if miss && b then .exc "KeyError" else .bool b)
 
-/-- `index != other` -/
+/-- `index != other`: `not self == other` (a KeyError of `==` propagates) -/
 def neTo (x : Index) (E : Externals) (now : Int) (ordered : Bool) (other : List (PyVal × PyVal)) : Index × Out :=
   match x.eqTo E now ordered other with
   | (x1, .bool b) => (x1, .bool (!b))
